@@ -20,8 +20,9 @@ import (
 func TestMain(m *testing.M) { vlib.Main(m) }
 
 const (
-	custReg = slog.Level(25) // registered as "notice"
-	custRaw = slog.Level(33) // unregistered: printed as L#33
+	custReg    = slog.Level(25) // registered as "notice"
+	custTitled = slog.Level(27) // registered under the scenario's title, which may need quoting
+	custRaw    = slog.Level(33) // unregistered: printed as L#33
 )
 
 var reserved = map[string]bool{"time": true, "level": true, "msg": true, "caller": true, "logger": true}
@@ -100,6 +101,7 @@ type scenario struct {
 	PathRepl string // with caller info: the source tree is registered as a known path with this replacement (it ends up in the caller field)
 	How      int    // how the logger gets its format: 0 Set...Mode, 1 option of the package-level New, 2 option of New on a parent in another format, 3 With...Mode method
 	Thru     bool   // WriteThru with an explicit timestamp, else LogAttrs
+	Title    string // the title the level custTitled is registered under (RegisterLevel); "": a plain one
 	Msg      string
 	Attrs    []vlib.ExpAttr
 	Args     []any
@@ -113,12 +115,18 @@ func here() uintptr {
 	return pcs[0]
 }
 
+// titleInUse is the title custTitled is registered under in the running case.
+var titleInUse string
+
 func levelName(l slog.Level) string {
 	if n, ok := vlib.BuiltinNames[l]; ok {
 		return n
 	}
 	if l == custReg {
 		return "notice"
+	}
+	if l == custTitled {
+		return titleInUse
 	}
 	// an unregistered level has no documented name: whatever Level.String() gives must be what is printed
 	return l.String()
@@ -127,6 +135,13 @@ func levelName(l slog.Level) string {
 func run(t vlib.TB, test string, sc scenario, attrsForThru slog.Attrs) {
 	defer vlib.Canon()()
 	_ = slog.RegisterLevel(custReg, "notice", slog.RegWithTreatedAsLevel(slog.InfoLevel))
+	titleInUse = sc.Title
+	if titleInUse == "" {
+		titleInUse = "titled"
+	}
+	if err := slog.RegisterLevel(custTitled, titleInUse, slog.RegWithTreatedAsLevel(slog.InfoLevel)); err != nil {
+		titleInUse = custTitled.String() // refused: the level stays unregistered and prints whatever String() gives
+	}
 	flags := vlib.BaseFlags
 	if sc.Caller {
 		flags |= slog.Lcaller
@@ -243,7 +258,7 @@ func genScenario(t *rapid.T) (scenario, slog.Attrs) {
 	var sc scenario
 	sc.Named = rapid.Bool().Draw(t, "named")
 	sc.Caller = rapid.Bool().Draw(t, "caller")
-	sevs := append(append([]slog.Level{}, vlib.Builtins...), custReg, custRaw)
+	sevs := append(append([]slog.Level{}, vlib.Builtins...), custReg, custRaw, custTitled)
 	sc.Sev = rapid.SampledFrom(sevs).Filter(func(l slog.Level) bool { return l != slog.OffLevel }).Draw(t, "severity")
 	sc.Thru = rapid.Bool().Draw(t, "writeThru")
 	sc.PathRepl = rapid.SampledFrom([]string{"", "", "", "C:\\src\\", "my \"quoted\" dir", "tab\there", "two\nlines", "back\\", "\u00fcml\u00e4ut"}).Draw(t, "knownPathReplacement")
@@ -260,6 +275,9 @@ func genScenario(t *rapid.T) (scenario, slog.Attrs) {
 		}
 	}
 	sc.How = rapid.SampledFrom([]int{0, 0, 1, 2, 3}).Draw(t, "howFormatIsSet")
+	if sc.Sev == custTitled {
+		sc.Title = rapid.SampledFrom([]string{"", "x\" msg=\"forged", "two\nlines", "cr\rlf\n", "back\\slash", "tab\there", "sp ace", "eq=sign", "\u00fcml\u00e4ut", "trailing\\", "esc\x1b[31m"}).Draw(t, "levelTitle")
+	}
 	sc.FlagsHow = rapid.SampledFrom([]int{0, 0, 1, 2, 3, 4}).Draw(t, "flagsHow")
 	sc.Disturb = vlib.GenDisturb().Draw(t, "disturbance")
 	sc.Layout = rapid.SampledFrom([]string{"", "", "", time.Kitchen, time.Stamp, "15:04", "15:04:05.000"}).Draw(t, "ownTimeLayout")
